@@ -125,6 +125,16 @@ add("C14", "other",
     "string literal text, pinned by the repository's own test) is a known finding.", COMMON_NOTE,
     "property clauses evaluated on real token streams + token-level correspondence with the Coq lexer model + table theorems")
 
+add("C13", "other",
+    "Partial. Proved in Coq (PropC13.v) about the transactional lexer model and the Go-faithful combinator interpreter: "
+    "Snapshot/Rollback restores position and stack, Snapshot/Commit keeps the position, replay below the write pointer returns "
+    "the cached token, Assert / Not / Ok consume nothing. The general refinement run_go = run_spec is open "
+    "(C13_comb_refines_spec_statement). Decided each run: all Next/Snapshot/Rollback/Commit sequences up to length 6 (9 thorough) "
+    "and random longer ones on the real TLexer against the cursor specification; thousands of random parser expressions over all "
+    "12 combinators run with the real combinators on the real TLexer and compared (nodes, error, position afterwards, snapshot "
+    "balance) with the ordered-choice specification and with the interpreter model, inside Coq.", COMMON_NOTE,
+    "specification (ordered-choice recogniser, cursor) evaluated in Coq against the real combinators/TLexer + model correspondence + law theorems")
+
 PENDING_REASON = "check under construction in this round (the technique applies; see DESIGN.md section 6); not yet claimed"
 
 
